@@ -7,7 +7,7 @@ script, ids = sys.argv[1], sys.argv[2:]
 rows = {}
 for l in open('/verif/DESIGN.md'):
     c = [x.strip() for x in l.strip().strip('|').split(' | ')] if l.startswith('| C') else []
-    if len(c) >= 4 and re.fullmatch(r'C\d\d[a-d]', c[0]): rows[c[0]] = (c + [''])[:5]
+    if len(c) >= 4 and re.fullmatch(r'C\d\d[a-f]', c[0]): rows[c[0]] = (c + [''])[:5]
 lines = {}
 for l in open(script):
     if l.startswith('$V '):
